@@ -97,12 +97,19 @@ SINGLE_READS = ([["named", k] for k in READ_KINDS] + [["reduce", f, sp] for f in
                 + [["accumulate", u] for u in ("add", "subtract", "bitwise_xor")]
                 + [["fn", f] for f in ("cumsum", "sort", "unique", "unique-counts", "diff", "nonzero", "colcounts", "colmean", "getcol0", "astype-float",
                                        "astype-bool", "zeros_like", "where", "subset", "maskindex", "concat1", "neg", "add-scalar", "add-column", "compare",
-                                       "equals-self", "rslice", "iter-rows", "row-last", "cell", "col0", "alias", "empty-tuple")])
+                                       "equals-self", "rslice", "iter-rows", "row-last", "cell", "col0", "alias", "empty-tuple",
+                                       "mul-own-flat", "add-own-row", "sub-own-firsts", "add-one-element", "mul-row-vector")])
 
 
-def apply_single_read(x, read, n):
+def apply_single_read(x, read, n, operands=None):
+    """operands: the other arrays a read hands to the library are appended as (array, copy made before the call)"""
     from npstructures import ragged_slice
     k = read[0]
+
+    def operand(arr):
+        if operands is not None:
+            operands.append((arr, arr.copy()))
+        return arr
     if k == "named":
         from ..prog import do_read
         return do_read(x, read[1])
@@ -152,7 +159,17 @@ def apply_single_read(x, read, n):
     if f == "add-scalar":
         return (x + 1).tolist()
     if f == "add-column":
-        return (x + np.arange(n).reshape(n, 1)).tolist()
+        return (x + operand(np.arange(n).reshape(n, 1))).tolist()
+    if f == "mul-own-flat":          # operands that are views of the array's own cells (shapes permitting)
+        return (x * x.ravel()).tolist()
+    if f == "add-own-row":
+        return (x + x[-1]).tolist()
+    if f == "sub-own-firsts":
+        return (x - operand(np.array([r[0] for r in x]).reshape(n, 1))).tolist()
+    if f == "add-one-element":
+        return (x + operand(np.array([5], dtype=x.dtype))).tolist()
+    if f == "mul-row-vector":
+        return (x * operand(np.arange(len(x[0]), dtype=x.dtype))).tolist()
     if f == "compare":
         return (x == x).tolist()
     if f == "equals-self":
@@ -182,10 +199,10 @@ def _selftest_reads():
         x = RaggedArray(np.array([3, 1, 2, 5, 4], dtype=np.int64), [2, 3])
         try:
             apply_single_read(x, read, 2)
-        except (NameError, AttributeError, ImportError, ValueError, KeyError) as e:
-            if isinstance(e, ValueError) and "unknown" not in str(e) and read[0] != "fn":
-                continue
-            raise AssertionError(f"harness self-test: read {read} failed on a plain array: {e!r}")
+        except Exception as e:  # noqa: BLE001 - a refusal by the library is fine here; an error raised in our own frame is not
+            from ..oracle import _raised_in_harness
+            if _raised_in_harness(e) or isinstance(e, (NameError, ImportError)):
+                raise AssertionError(f"harness self-test: read {read} failed on a plain array: {e!r}")
 
 
 _SELFTESTED = []
@@ -208,8 +225,12 @@ def body_single_read(case, ctx):
               "uniform-lengths" if len(set(a["lens"])) == 1 else "mixed-lengths")
     ctx.nt(a["dt"] != "int64" or len(set(a["lens"])) == 1)
     with np.errstate(all="ignore"):
-        lib(apply_single_read, x, read, n)
+        operands = []
+        lib(apply_single_read, x, read, n, operands)
         expect_unchanged(x, rows, a["dt"], "read-changed-content", read=read)
+        for arr, before in operands:
+            if arr.shape != before.shape or arr.dtype != before.dtype or not arrays_equal(arr, before):
+                raise Violation("read-changed-operand", read=read, before=before.tolist(), after=arr.tolist())
         col = np.array([[float("inf"), 0.1, 1e300, -2.5, 7.0][i % 5] for i in range(n)], dtype=np.float64).reshape(n, 1)
         exp = lib(lambda: np.maximum(np_flat(a), np.repeat(col.ravel(), a["lens"])))
         if exp.ok:
@@ -224,7 +245,7 @@ def single_read_case(draw, tier):
     mode = draw(st.integers(0, 3))
     if mode == 0:      # uniform row lengths (every row its own reduction / rectangular)
         L = draw(st.sampled_from([1, 1, 1, 2, 3, 0]))
-        lens = [L] * draw(st.integers(1, 5))
+        lens = [L] * draw(st.sampled_from([1, 1, 2, 3, 4, 5]))
         a = {"lens": lens, "dt": dt, "vals": draw(gen.flat_values(dt, sum(lens), specials=False))}
     else:
         a = draw(gen.ragged(tier, dts=[dt], min_rows=1, specials=False))
